@@ -1333,6 +1333,14 @@ mod convert {
         ) -> ConvertResult<(LineString, DirectoryId, Option<FileInfo>)> {
             let from_name =
                 Self::convert_string(from_file.path_name(), from_dwarf, encoding, line_strings)?;
+            // `LineProgram::add_file` requires a non-empty name for DWARF version <= 4.
+            // This can only occur for `DW_LNE_define_file`.
+            if let LineString::String(ref val) = from_name
+                && encoding.version <= 4
+                && val.is_empty()
+            {
+                return Err(ConvertError::UnsupportedLineInstruction);
+            }
             let from_dir = from_file.directory_index();
             if from_dir >= dirs.len() as u64 {
                 return Err(ConvertError::InvalidDirectoryIndex);
